@@ -38,44 +38,82 @@ Proof. exact described_types_once. Qed.
 
 (** ** stage 1: the result of introspection.Query is the description *)
 
-(** For every definition [S] and feature set [F], and however a default value is presented
-    ([pr]): the response is not an error and, after sorting what Go delivers in map order, it IS
-    [describe pr S F] — every visible type, field, argument, input field, enum value, interface
-    and union membership, wrapper chain, description, deprecation flag and reason, directive with
-    locations and arguments, exactly as configured.  Hypotheses: wrapper chains no deeper than the
-    [query_depth] = 8 levels the query asks for (a limit introspection.Query documents itself);
-    gating coherent across "implements" (otherwise C13, DESIGN section 6 rows 17/30); no object
-    declares an interface twice; directive locations are among the eighteen of __DirectiveLocation. *)
+(** For EVERY definition [S] and feature set [F], and however a default value is presented
+    ([pr]): the response is not an error and, after sorting what Go delivers in map order, it is
+    [describe pr S F] as far as the query looks — every visible type, field, argument, input
+    field, enum value, visible interface and possible type, description, deprecation flag and
+    reason, directive with locations and arguments, exactly as configured, and every list /
+    non-null wrapper chain up to the [query_depth] = 8 levels (named type included) to which the
+    fixed document introspection.Query nests [ofType]; a longer chain is cut there ([truncate]).
+    Hypotheses: no object declares an interface twice; directive locations are among the eighteen
+    of __DirectiveLocation (neither is checked by schema.New).  No hypothesis about feature
+    gating: the listings [interfaces] / [possibleTypes] are filtered by the request's features
+    (after the repair of DESIGN section 6 row 17). *)
+Theorem C10_introspect_describes_any_depth : forall (D : Type) (pr : sty -> option gval -> D) (S : schema) (F : features),
+  interfaces_declared_once S = true -> locations_known S = true ->
+  exists r, introspect pr S F = IntroOk r /\ normalise r = truncate query_depth (describe pr S F).
+Proof. exact introspect_describes_upto_depth. Qed.
+
+(** Nothing is cut when the chains of the definition have at most 8 levels ([depth_ok]): then the
+    response IS the description.  The bound is exactly the nesting of the query document
+    (harness: the real introspection.Query is run on chains of 0..9 wrappers). *)
 Theorem C10_introspect_describes : forall (D : Type) (pr : sty -> option gval -> D) (S : schema) (F : features),
-  depth_ok S = true -> gating_coherent S F = true -> interfaces_declared_once S = true -> locations_known S = true ->
+  interfaces_declared_once S = true -> depth_ok S = true -> locations_known S = true ->
   exists r, introspect pr S F = IntroOk r /\ normalise r = describe pr S F.
 Proof. exact introspect_describes. Qed.
 
+(** The limit is the query's, not the resolvers': followed to [d] levels, kind / name / ofType
+    deliver the complete chain of every type with at most [d] levels, for every [d]. *)
+Theorem C10_typeref_complete_at_depth : forall S t d,
+  (sty_levels t <= d)%nat -> type_ref S d t = Some (full_ref S t).
+Proof. exact type_ref_full. Qed.
+
+(** KNOWN limit (documented in introspection/query.go): [depth_ok] cannot be dropped from
+    [C10_introspect_describes].  For a field of type [[[[[[[[Int]]]]]]]] (nine levels) the response
+    differs from the description, is the truncated description, and contains a type reference
+    that never reaches a named type — the standard query does not describe such a definition
+    completely, a query nesting [ofType] nine times does. *)
+Theorem C10_deep_chain_truncated_refuted :
+  exists S F r,
+    depth_ok S = false /\ interfaces_declared_once S = true /\ locations_known S = true /\
+    introspect (fun t d => (t, d)) S F = IntroOk r /\
+    normalise r <> describe (fun t d => (t, d)) S F /\
+    normalise r = truncate query_depth (describe (fun t d => (t, d)) S F) /\
+    refs_resolve (normalise r) = false /\
+    type_ref S 9 (lists 8 (StNamed n_Int)) = Some (full_ref S (lists 8 (StNamed n_Int))).
+Proof. exact deep_chain_truncated_refuted. Qed.
+
 (** every type reference of the response (field, argument and input field types through their
     whole wrapper chain, interfaces, possible types, root operation types) names a type of the
-    types listing.  Additional hypotheses, all enforced by schema.New's shallowValidate or by
-    Go's pointers, except the last (root types and directive argument types visible): *)
+    types listing.  Additional hypotheses, all enforced by schema.New (shallowValidate; root
+    operation types and directive argument types must not require features) or by Go's
+    pointers: *)
 Theorem C10_introspect_refs_resolve : forall (D : Type) (pr : sty -> option gval -> D) S F r,
-  depth_ok S = true -> gating_coherent S F = true -> interfaces_declared_once S = true -> locations_known S = true ->
+  depth_ok S = true -> interfaces_declared_once S = true -> locations_known S = true ->
   refs_defined S = true -> gating_nested S = true -> roots_visible S F = true ->
   introspect pr S F = IntroOk r -> refs_resolve (normalise r) = true.
 Proof. exact introspect_refs_resolve. Qed.
 
 (** ** stage 1: printed defaults *)
 
-(** marshalValue prints a conforming default of a scalar, enum or list type (nulls included) as a
-    GraphQL literal whose input coercion at that type gives the configured value back.  Strings:
-    every code point up to U+FFFF other than surrogates, with all of encoding/json's escaping (the
-    hard lemma, [string_body_roundtrip]).  Floats: integral values (float formatting is not
-    modelled).
+(** marshalValue prints a conforming default — of a scalar, enum, list or input object type, nested
+    to any depth, nulls included, the fields of an input object in whatever order Go's map
+    iteration delivers them — as a GraphQL literal whose input coercion at that type gives the
+    configured value back.  Strings: every code point up to U+FFFF other than surrogates, with all
+    of encoding/json's escaping (the hard lemma, [string_body_roundtrip]).  Input objects: a
+    conforming value ([default_conforms]: what input coercion produces) has an entry for every
+    field that has a default, so reading the literal back adds nothing.  [enums_ok], [inputs_ok]:
+    enum value names and input field names are GraphQL names (shallowValidate).
 
-    FULL STATEMENT, proved only in part:
-      forall S v t, enums_ok S -> default_conforms S v t = true -> (strings of v within U+0000..U+FFFF
-      without surrogates) -> exists txt, marshal S v t = MOk txt /\ literal_denotes S t txt v = true.
-    Missing: values that contain an input object ([GMap]; [printable] excludes them) and
-    non-integral floats.  For those the clause is evaluated by the oracle on every generated
-    default ([literal_denotes] in Intro/IntrospectCheck.v) and end to end with the real parser. *)
-Theorem C10_default_roundtrip_partial : forall (S : schema), enums_ok S -> forall v t,
+    FULL STATEMENT, proved except for one kind of leaf:
+      forall S v t, enums_ok S -> inputs_ok S -> default_conforms S v t = true -> (strings of v within
+      U+0000..U+FFFF without surrogates) -> exists txt, marshal S v t = MOk txt /\ literal_denotes S t txt v = true.
+    Missing: Float values that are not integral ([printable] demands that the text Go printed is
+    the decimal of an integer: strconv's shortest-round-trip formatting is not modelled).  For
+    those the clause is evaluated by the oracle on every generated default — the text Go printed
+    must parse as a Float literal whose exact rational value rounds to the configured float64
+    ([rounds_to]) — and end to end with the real parser. *)
+Theorem C10_default_roundtrip_partial : forall (S : schema), enums_ok S -> inputs_ok S -> forall v t,
   default_conforms S v t = true -> printable v ->
   exists txt, marshal S v t = MOk txt /\ literal_denotes S t txt v = true.
 Proof. exact default_roundtrip_values. Qed.
@@ -118,7 +156,7 @@ Proof. exact default_astral_refuted. Qed.
     theorem).  Both steps are covered by the correspondence check only: 30 generated documents
     per rebuilt schema are given to the real graphql.ParseAndValidate on both schemas. *)
 Theorem C10_rebuild_same_verdicts_partial : forall S F r,
-  depth_ok S = true -> gating_coherent S F = true -> interfaces_declared_once S = true -> locations_known S = true ->
+  depth_ok S = true -> interfaces_declared_once S = true -> locations_known S = true ->
   refs_defined S = true -> gating_nested S = true -> roots_visible S F = true ->
   builtins_consistent S = true -> kinds_ok S = true -> scalars_accept_all S = true -> defaults_denote S ->
   introspect (print_default S) S F = IntroOk r ->
@@ -130,7 +168,7 @@ Proof. exact rebuild_same_for_validation. Qed.
     rebuilt as a scalar that accepts everything (introspection does not carry coercions). *)
 Theorem C10_rebuild_picky_scalar_refuted :
   exists S F r R,
-    depth_ok S = true /\ gating_coherent S F = true /\ interfaces_declared_once S = true /\ locations_known S = true /\
+    depth_ok S = true /\ interfaces_declared_once S = true /\ locations_known S = true /\
     refs_defined S = true /\ gating_nested S = true /\ roots_visible S F = true /\
     builtins_consistent S = true /\ kinds_ok S = true /\ defaults_denote S /\
     scalars_accept_all S = false /\
@@ -163,7 +201,10 @@ Proof. exact clone_fresh. Qed.
 Print Assumptions C10_registry_exact.
 Print Assumptions C10_members_exact.
 Print Assumptions C10_types_listed_once.
+Print Assumptions C10_introspect_describes_any_depth.
 Print Assumptions C10_introspect_describes.
+Print Assumptions C10_typeref_complete_at_depth.
+Print Assumptions C10_deep_chain_truncated_refuted.
 Print Assumptions C10_introspect_refs_resolve.
 Print Assumptions C10_default_roundtrip_partial.
 Print Assumptions C10_default_astral_refuted.
